@@ -803,6 +803,8 @@ class WorkflowDatabaseManager:
                 f"{self.pub_dao.db_file_name}: recovered from "
                 f"{self.pri_dao.db_file_name}")
             self.pub_dao.n_tries = 0
+            # The copy already contains everything that was queued.
+            self.pub_dao.pending_batches.clear()
 
     def restart_check(self) -> None:
         """Check & vacuum the runtime DB for a restart.
